@@ -1,6 +1,6 @@
 ------------------------------- MODULE Doc33 -------------------------------
 (* C33: split and merge preserve the page sequence.                                              *)
-(* Every initial state is one case: a document (or several) given as trees (DocTrees) with unique   *)
+(* Every state reached in one step is one case: a document (or several) given as trees (DocTrees) with unique   *)
 (* page markers, an operation, and what Doc.tla says must come out:                                 *)
 (*   split span / split before page numbers: the parts in output order with the names the API gives *)
 (*   them (from-thru) and their marker sequences - their concatenation is the original sequence;    *)
@@ -28,8 +28,10 @@ CONSTANTS SplitNs,     \* page counts for split by span (x Spans)
           SmallMax,    \* merges of <= SmallMax documents are repeated under the other configurations and as MergeRaw
           ExtractNs,
           Emit
-VARIABLE c
-vars == <<docvars, c>>
+(* c: the case; part: which slice of the case space this behaviour enumerates (the slices are enumerated by TLC's workers in parallel) *)
+VARIABLES c, part
+vars == <<docvars, c, part>>
+P == 16
 
 Marks(t)      == LET ps == TreePages(t) IN [i \in 1..Len(ps) |-> ps[i].mark]
 DocTree(d, n) == Shape(n, ((d + n) % NShapes) + 1, "d" \o ToString(d) \o "p")
@@ -84,43 +86,52 @@ ExtractSels == {<<>>, <<SelTerm("n", 1, 0, "")>>, <<SelTerm("rng", 2, 3, "")>>, 
                 <<SelTerm("suf", 3, 0, ""), SelTerm("l", 0, 0, "!")>>, <<SelTerm("n", 9, 0, "")>>}
 SumSeq(t) == FoldLeft(LAMBDA x, y : x + y, 0, t)
 
-Cases ==
-       {SplitCase(n, s, "file", ci) : n \in SplitNs, s \in Spans, ci \in {1, 2}}
-  \cup {SplitCase(n, s, "raw", ci) : n \in RawNs, s \in RawSpans, ci \in {1, 2}}
-  \cup UNION {{SplitNrCase(n, l) : l \in IncLists(n) \cup BadLists(n)} : n \in NrNs}
-  \cup UNION {{SplitNrCase(n, l) : l \in SampleLists(n)} : n \in NrSampleNs}
-  \cup UNION {{SplitBmCase(n, l, api) : l \in BmLists(n), api \in {"file", "raw"}} : n \in BmNs}
-  \cup {ExtractCase(n, ts, ci) : n \in ExtractNs, ts \in ExtractSels, ci \in {1, 2}}
-  \cup {MergeCase("create", sz, dv, "file", 1) : sz \in SizeTuples(MergeMax), dv \in BOOLEAN}
-  \cup {MergeCase("create", sz, dv, "file", ci) : sz \in SizeTuples(SmallMax), dv \in BOOLEAN, ci \in {2, 3, 4}}
-  \cup {MergeCase("create", sz, dv, "raw", ci) : sz \in SizeTuples(SmallMax), dv \in BOOLEAN, ci \in {1, 2}}
-  \cup {MergeCase("append", sz, dv, "file", SumSeq(sz)) : sz \in {t \in SizeTuples(AppendMax + 1) : Len(t) >= 2}, dv \in BOOLEAN}
-  \cup {MergeCase("appendnew", sz, dv, "file", SumSeq(sz)) : sz \in SizeTuples(2), dv \in BOOLEAN}
-  \cup {ZipCase(a, b) : a \in ZipSizes, b \in ZipSizes}
+In(pt, x) == x % P = pt
+B2N(b)    == IF b THEN 1 ELSE 0
+Cases(pt) ==
+       {SplitCase(n, sp, "file", ci) : <<n, sp, ci>> \in {t \in SplitNs \X Spans \X {1, 2} : In(pt, t[1] + t[2] + t[3])}}
+  \cup {SplitCase(n, sp, "raw", ci) : <<n, sp, ci>> \in {t \in RawNs \X RawSpans \X {1, 2} : In(pt, t[1] + t[2] + t[3])}}
+  \cup UNION {{SplitNrCase(n, l) : l \in {x \in IncLists(n) \cup BadLists(n) : In(pt, n + SumSeq(x))}} : n \in NrNs}
+  \cup UNION {{SplitNrCase(n, l) : l \in SampleLists(n)} : n \in {m \in NrSampleNs : In(pt, m)}}
+  \cup UNION {{SplitBmCase(n, l, api) : l \in {x \in BmLists(n) : In(pt, n + SumSeq(x))}, api \in {"file", "raw"}} : n \in BmNs}
+  \cup {ExtractCase(n, ts, ci) : n \in ExtractNs, ts \in {x \in ExtractSels : In(pt, Len(x))}, ci \in {1, 2}}
+  \cup {MergeCase("create", sz, dv, "file", 1) : sz \in {t \in SizeTuples(MergeMax) : In(pt, SumSeq(t))}, dv \in BOOLEAN}
+  \cup {MergeCase("create", sz, dv, "file", ci) : sz \in {t \in SizeTuples(SmallMax) : In(pt, SumSeq(t))}, dv \in BOOLEAN, ci \in {2, 3, 4}}
+  \cup {MergeCase("create", sz, dv, "raw", ci) : sz \in {t \in SizeTuples(SmallMax) : In(pt, SumSeq(t))}, dv \in BOOLEAN, ci \in {1, 2}}
+  \cup {MergeCase("append", sz, dv, "file", SumSeq(sz)) : sz \in {t \in SizeTuples(AppendMax + 1) : Len(t) >= 2 /\ In(pt, SumSeq(t))}, dv \in BOOLEAN}
+  \cup {MergeCase("appendnew", sz, dv, "file", SumSeq(sz)) : sz \in {t \in SizeTuples(2) : In(pt, SumSeq(t))}, dv \in BOOLEAN}
+  \cup {ZipCase(x, y) : <<x, y>> \in {t \in ZipSizes \X ZipSizes : In(pt, t[1] + t[2])}}
 
-Init == c \in Cases /\ DocInit(<<>>)
-Next == FALSE /\ UNCHANGED vars      \* every case is an initial state; nothing moves
+Init == part \in 0..(P - 1) /\ c = Base /\ DocInit(<<>>)
+Next == c.kind = "" /\ c' \in Cases(part) /\ UNCHANGED <<docvars, part>>     \* one step: pick a case of the slice
 Spec == Init /\ [][Next]_vars
 
 ---------------------------------------------------------------------------
 (* design properties: the parts of a split, concatenated, are the original page sequence; a merge contains every *)
 (* page of every input exactly once, in order, and blank pages only as requested dividers                          *)
-AllMarks == FlattenSeq([d \in 1..Len(c.trees) |-> Marks(c.trees[d])])
-PartsOK == /\ (c.kind \in {"split", "splitnr"} /\ c.res = "ok" =>
-                /\ FlattenSeq([k \in 1..Len(c.parts) |-> c.parts[k].marks]) = AllMarks
-                /\ c.parts[1].from = 1 /\ \A k \in 2..Len(c.parts) : c.parts[k].from = c.parts[k - 1].thru + 1)
-           /\ (c.kind = "splitbm" => \E i \in 1..(Len(AllMarks) + 1) :
-                                       FlattenSeq([k \in 1..Len(c.parts) |-> c.parts[k].marks]) = SubSeq(AllMarks, i, Len(AllMarks)))
-           /\ \A k \in 1..Len(c.parts) : /\ c.parts[k].from <= c.parts[k].thru
-                                          /\ c.parts[k].marks = SubSeq(AllMarks, c.parts[k].from, c.parts[k].thru)
-MergeOK == c.kind = "merge" =>
-             /\ (c.mode # "zip" => SelectSeq(c.exp, LAMBDA m : m # Blank0) = AllMarks)
-             /\ Len(SelectSeq(c.exp, LAMBDA m : m = Blank0)) = (IF c.divider THEN Len(c.trees) - 1 ELSE 0)
-             /\ (c.mode = "zip" => /\ ToSet(c.exp) = ToSet(AllMarks) /\ Len(c.exp) = Len(AllMarks)
-                                   /\ \A d \in 1..2 : SelectSeq(c.exp, LAMBDA m : m \in ToSet(Marks(c.trees[d]))) = Marks(c.trees[d])
-                                   /\ \A i \in 1..Min2(Len(Marks(c.trees[1])), Len(Marks(c.trees[2]))) :
-                                        c.exp[2 * i - 1] = Marks(c.trees[1])[i] /\ c.exp[2 * i] = Marks(c.trees[2])[i])
-TreesClear == \A d \in 1..Len(c.trees) : Unambiguous(TreePages(c.trees[d]))
+DocMarks == [d \in 1..Len(c.trees) |-> Marks(c.trees[d])]
+PartsOK ==
+  c.kind # "" =>
+  LET all == FlattenSeq(DocMarks)
+      cat == FlattenSeq([k \in 1..Len(c.parts) |-> c.parts[k].marks])
+  IN /\ (c.kind \in {"split", "splitnr"} /\ c.res = "ok" =>
+          /\ cat = all
+          /\ c.parts[1].from = 1 /\ \A k \in 2..Len(c.parts) : c.parts[k].from = c.parts[k - 1].thru + 1)
+     /\ (c.kind = "splitbm" => cat = SubSeq(all, c.parts[1].from, Len(all)))
+     /\ \A k \in 1..Len(c.parts) : /\ c.parts[k].from <= c.parts[k].thru
+                                    /\ c.parts[k].marks = SubSeq(all, c.parts[k].from, c.parts[k].thru)
+MergeOK ==
+  c.kind = "merge" =>
+    LET dm  == DocMarks
+        all == FlattenSeq(dm)
+        m1  == ToSet(dm[1])
+    IN /\ (c.mode # "zip" => SelectSeq(c.exp, LAMBDA m : m # Blank0) = all)
+       /\ Len(SelectSeq(c.exp, LAMBDA m : m = Blank0)) = (IF c.divider THEN Len(c.trees) - 1 ELSE 0)
+       /\ (c.mode = "zip" => /\ Len(c.exp) = Len(all) /\ ToSet(c.exp) = ToSet(all)
+                             /\ SelectSeq(c.exp, LAMBDA m : m \in m1) = dm[1]
+                             /\ SelectSeq(c.exp, LAMBDA m : m \notin m1) = dm[2]
+                             /\ \A i \in 1..Min2(Len(dm[1]), Len(dm[2])) : c.exp[2 * i - 1] = dm[1][i] /\ c.exp[2 * i] = dm[2][i])
+TreesClear == c.kind # "" => \A d \in 1..Len(c.trees) : Unambiguous(TreePages(c.trees[d]))
 
-EmitCase == Emit => PrintT(<<"CASE", ToJson(c)>>)
+EmitCase == Emit /\ c.kind # "" => PrintT(<<"CASE", ToJson(c)>>)
 =============================================================================
